@@ -149,4 +149,229 @@ theorem split_rows_eq (grow : Nat → Option Nat) (blk maxLine : Nat) (caps : Li
   · rw [← hj, rows_joinNL]
   · rw [← hj, rows_trailing_nl, rows_joinNL]
 
+/-! ### a source that fails: no cut line is handed over -/
+
+/-- the segments of a text that are terminated by a newline. -/
+def termGo : Bytes → Bytes → List Bytes
+  | [], _ => []
+  | c :: cs, cur => if c = bNL then cur.reverse :: termGo cs [] else termGo cs (c :: cur)
+
+def termLines (s : Bytes) : List Bytes := termGo s []
+
+/-- the complete lines of what a source delivered before it ended: the lines terminated by a
+newline, and the unterminated tail only when the source ended with a clean `io.EOF`. -/
+def completeLines (fin : End) (data : Bytes) : List Bytes :=
+  if fin = .eof then splitLines data else termLines data
+
+theorem termGo_nil (cur : Bytes) : termGo [] cur = [] := rfl
+theorem termGo_cons (c : UInt8) (cs cur : Bytes) :
+    termGo (c :: cs) cur = if c = bNL then cur.reverse :: termGo cs [] else termGo cs (c :: cur) := rfl
+
+theorem termGo_sub_splitLinesGo (s cur : Bytes) : ∀ l ∈ termGo s cur, l ∈ splitLinesGo s cur := by
+  induction s generalizing cur with
+  | nil => intro l hl; cases hl
+  | cons c cs ih =>
+    intro l hl
+    rw [termGo_cons] at hl
+    rw [splitLinesGo_cons]
+    split at hl
+    · rename_i hc
+      simp only [hc, if_true]
+      rcases List.mem_cons.mp hl with e | h'
+      · simp [e]
+      · exact List.mem_cons_of_mem _ (ih [] l h')
+    · rename_i hc
+      simp only [hc, if_false]
+      exact ih (c :: cur) l hl
+
+theorem splitLinesGo_sub_termGo_append (b r cur : Bytes) :
+    ∀ l ∈ splitLinesGo b cur, l ∈ termGo (b ++ bNL :: r) cur := by
+  induction b generalizing cur with
+  | nil =>
+    intro l hl
+    rw [splitLinesGo_nil] at hl
+    rw [List.nil_append, termGo_cons]
+    simp only [if_true]
+    split at hl
+    · cases hl
+    · simp only [List.mem_singleton] at hl
+      simp [hl]
+  | cons c cs ih =>
+    intro l hl
+    rw [splitLinesGo_cons] at hl
+    rw [List.cons_append, termGo_cons]
+    split at hl
+    · rename_i hc
+      simp only [hc, if_true]
+      rcases List.mem_cons.mp hl with e | h'
+      · simp [e]
+      · exact List.mem_cons_of_mem _ (ih [] l h')
+    · rename_i hc
+      simp only [hc, if_false]
+      exact ih (c :: cur) l hl
+
+theorem termGo_sub_append (b r cur : Bytes) : ∀ l ∈ termGo r [], l ∈ termGo (b ++ bNL :: r) cur := by
+  induction b generalizing cur with
+  | nil =>
+    intro l hl
+    rw [List.nil_append, termGo_cons]
+    simp only [if_true]
+    exact List.mem_cons_of_mem _ hl
+  | cons c cs ih =>
+    intro l hl
+    rw [List.cons_append, termGo_cons]
+    split
+    · exact List.mem_cons_of_mem _ (ih [] l hl)
+    · exact ih (c :: cur) l hl
+
+theorem splitLinesGo_sub_append (b r cur : Bytes) :
+    ∀ l ∈ splitLinesGo r [], l ∈ splitLinesGo (b ++ bNL :: r) cur := by
+  induction b generalizing cur with
+  | nil =>
+    intro l hl
+    rw [List.nil_append, splitLinesGo_cons]
+    simp only [if_true]
+    exact List.mem_cons_of_mem _ hl
+  | cons c cs ih =>
+    intro l hl
+    rw [List.cons_append, splitLinesGo_cons]
+    split
+    · exact List.mem_cons_of_mem _ (ih [] l hl)
+    · exact ih (c :: cur) l hl
+
+/-- the regenerated guard: on a source error nothing that is buffered is handed over. -/
+theorem handover_err : handover .err = false := by decide
+
+theorem handover_eof : handover .eof = true := by simp [handover]
+
+theorem complete_of_block (fin : End) (all b t rest : Bytes) (hb : BlockOf fin all b t rest) :
+    (∀ l ∈ splitLines b, l ∈ completeLines fin all) ∧
+    (∀ l ∈ completeLines fin (t ++ rest), l ∈ completeLines fin all) := by
+  rcases hb with ⟨hall, ht, hr, _, hho⟩ | hall
+  · have hf : fin = .eof := by
+      cases fin with
+      | eof => rfl
+      | err => rw [handover_err] at hho; cases hho
+    subst hf ht hr hall
+    constructor
+    · intro l hl; simpa [completeLines] using hl
+    · intro l hl
+      simp [completeLines, splitLines, splitLinesGo_nil] at hl
+  · subst hall
+    constructor
+    · intro l hl
+      have h1 := splitLinesGo_sub_termGo_append b (t ++ rest) [] l hl
+      unfold completeLines
+      split
+      · exact termGo_sub_splitLinesGo _ [] l h1
+      · exact h1
+    · intro l hl
+      unfold completeLines at hl ⊢
+      split
+      · rename_i hf
+        simp only [hf, if_true] at hl
+        exact splitLinesGo_sub_append b (t ++ rest) [] l hl
+      · rename_i hf
+        simp only [hf, if_false] at hl
+        exact termGo_sub_append b (t ++ rest) [] l hl
+
+theorem splitBlocks_complete (grow : Nat → Option Nat) (fin : End) (blk maxLine : Nat) :
+    ∀ (fuel : Nat) (caps : List Nat) (eff : Nat) (tail inp : Bytes) (bs : List Bytes) (e : Option SplitErr),
+      splitBlocks grow fin blk maxLine fuel caps eff tail inp = (bs, e) →
+      ∀ b ∈ bs, ∀ l ∈ splitLines b, l ∈ completeLines fin (tail ++ inp) := by
+  intro fuel
+  induction fuel with
+  | zero => intro caps eff tail inp bs e h; simp [splitBlocks] at h; intro b hb; rw [h.1] at hb; cases hb
+  | succ fuel ih =>
+    intro caps eff tail inp bs e h
+    unfold splitBlocks at h
+    simp only at h
+    split at h
+    all_goals try (simp only [Prod.mk.injEq] at h; intro b hb; rw [← h.1] at hb; cases hb; done)
+    rename_i b t rest cap hb
+    have hblk := readBlock_block _ _ _ _ _ _ _ _ _ _ _ hb
+    simp only [Prod.mk.injEq] at h
+    obtain ⟨hbs, _⟩ := h
+    obtain ⟨h1, h2⟩ := complete_of_block fin _ b t rest hblk
+    intro b' hb' l hl
+    rw [← hbs] at hb'
+    rcases List.mem_cons.mp hb' with e' | hm
+    · subst e'; exact h1 l hl
+    · exact h2 l (ih _ _ _ _ _ _ rfl b' hm l hl)
+
+/-- **no cut line is handed to the parser**: whatever the chunks the body source delivers, the
+block size, the buffers and their growth, and wherever the source fails, every line of every
+block handed over is a complete line of what the source delivered — terminated by a newline
+there, or the unterminated rest only when the source ended with a clean `io.EOF`. (The inner
+read loop over a chunked source fills the buffer exactly as over the flat stream:
+`fillChunks_flat`.) -/
+theorem split_never_hands_over_a_cut_line (grow : Nat → Option Nat) (fin : End) (blk maxLine : Nat) (caps : List Nat)
+    (data : Bytes) (bs : List Bytes) (e : Option SplitErr)
+    (h : sourceBlocks grow fin blk maxLine caps data = (bs, e)) :
+    ∀ b ∈ bs, ∀ l ∈ splitLines b, l ∈ completeLines fin data := by
+  have := splitBlocks_complete grow fin blk maxLine _ _ _ _ _ _ _ h
+  simpa using this
+
+/-- the inner read loop over any chunking of the stream fills the buffer as over the flat stream. -/
+theorem fillChunks_flat : ∀ (fuel cap : Nat) (dst : Bytes) (cs : List Bytes), cs.length ≤ fuel →
+    (fillChunks fuel cap dst cs).1 = dst ++ cs.flatten.take (cap - dst.length) ∧
+    (fillChunks fuel cap dst cs).2.flatten = cs.flatten.drop (cap - dst.length) := by
+  intro fuel
+  induction fuel with
+  | zero =>
+    intro cap dst cs h
+    have : cs = [] := List.eq_nil_of_length_eq_zero (by omega)
+    subst this
+    simp [fillChunks]
+  | succ fuel ih =>
+    intro cap dst cs h
+    cases cs with
+    | nil => simp [fillChunks]
+    | cons c rest =>
+      unfold fillChunks
+      split
+      · rename_i hfull
+        have : cap - dst.length = 0 := by omega
+        simp [this]
+      · rename_i hroom
+        split
+        · rename_i hce
+          have : c = [] := List.isEmpty_iff.mp hce
+          subst this
+          have := ih cap dst rest (by simp at h; omega)
+          simpa using this
+        · simp only
+          split
+          · rename_i hfit
+            have := ih cap (dst ++ c) rest (by simp at h; omega)
+            have hk : cap - (dst ++ c).length = (cap - dst.length) - c.length := by
+              simp only [List.length_append]; omega
+            rw [hk] at this
+            constructor
+            · rw [this.1, List.flatten_cons, List.take_append]
+              have : List.take (cap - dst.length) c = c := List.take_of_length_le hfit
+              simp [this, List.append_assoc]
+            · rw [this.2, List.flatten_cons, List.drop_append]
+              have : List.drop (cap - dst.length) c = [] := List.drop_eq_nil_of_le hfit
+              simp [this]
+          · rename_i hbig
+            have hlt : cap - dst.length < c.length := by omega
+            constructor
+            · simp only [List.flatten_cons]
+              rw [List.take_append_of_le_length (by omega)]
+            · simp only [List.flatten_cons]
+              rw [List.drop_append_of_le_length (by omega)]
+
+-- non-vacuity: the source breaks inside `cc=12…` after two complete lines: the first buffer's
+-- line is handed over, the cut rest is not, and the splitter reports the failure
+example : sourceBlocks growExact .err 16 64 []
+    [97, 97, 97, 97, 97, 97, 97, 97, 10, 98, 98, 98, 98, 98, 98, 98, 10, 99, 99, 61, 49, 50] =
+    ([[97, 97, 97, 97, 97, 97, 97, 97]], some .readFailed) := by decide
+-- the same bytes from a source that ends cleanly: the unterminated rest is the last block
+example : sourceBlocks growExact .eof 16 64 []
+    [97, 97, 97, 97, 97, 97, 97, 97, 10, 98, 98, 98, 98, 98, 98, 98, 10, 99, 99, 61, 49, 50] =
+    ([[97, 97, 97, 97, 97, 97, 97, 97], [98, 98, 98, 98, 98, 98, 98, 10, 99, 99, 61, 49, 50]], none) := by decide
+example : completeLines .err [97, 10, 98, 61, 49] = [[97]] := by decide
+example : completeLines .eof [97, 10, 98, 61, 49] = [[97], [98, 61, 49]] := by decide
+
 end OG.C06
